@@ -74,6 +74,14 @@ func c04Run(w *verifrt.World, tier Tier) *RunResult {
 	if t.Draw(4) == 0 {
 		cfg.ArgLimit = 1 + t.Draw(4)
 	}
+	if t.Draw(2) == 0 {
+		// small body limits: bodies spill to the simulated disk and the limit is
+		// within reach of two consecutive requests on the same pooled object
+		cfg.ReqAccess = true
+		cfg.ReqLimit = 24 + t.Draw(120)
+		cfg.ReqMem = 1 + t.Draw(cfg.ReqLimit)
+		cfg.ReqReject = t.Draw(2) == 0
+	}
 	script := genScript(t, &reqOpts{Body: true, JSON: true, Uploads: true, MaxArgs: 6}, "c04")
 	cfg.Lines = append(cfg.Lines, "SecDataset ds1 `\nevil\nfoo\n`")
 	dump := cfg.DumpTX
